@@ -1259,50 +1259,148 @@ func (x *c01Ctx) bufferSizeG(e, d *c01Dir) {
 	if max == 0 {
 		return
 	}
-	// the pooled buffer: allocation inside the closure that is the pool's New
-	var got int64 = -1
+	// the pool the fill buffers come from, and the function stored into its New field (a func literal, a named
+	// function, a method value, ... wherever it is assigned: var initialiser, init(), constructor)
+	sizes := map[int64]bool{}
+	found := false
 	for _, dd := range []*c01Dir{e, d} {
 		if dd.fill == nil {
 			continue
 		}
 		for v := range dd.g.cone(CV{dd.fill.n.C, dd.fill.call.Call.Args[0]}) {
 			c, ok := v.V.(*ssa.Call)
-			if !ok || !callIs(c, "sync", "Pool", "Get") {
+			if !ok || !callIs(c, "sync", "Pool", "Get") || len(c.Call.Args) == 0 {
 				continue
 			}
-			gl, ok := c.Call.Args[0].(*ssa.Global)
-			if !ok {
-				continue
-			}
-			// find the composite literal initialising that pool in the package initialiser
-			for _, fn := range x.fns {
-				if fn.Parent() == nil || topFunc(fn).Name() != "init" {
-					continue
-				}
-				_ = gl
-				allInstrs(fn, func(in ssa.Instruction) {
+			pool := dd.g.res(CV{v.C, c.Call.Args[0]})
+			for _, nf := range x.poolNewFuncs(pool.V) {
+				found = true
+				ng := c01NewGraph(x.p, nf)
+				ng.eachInstr(func(n *cgNode, in ssa.Instruction) {
 					switch a := in.(type) {
 					case *ssa.Alloc:
 						if arr, ok := deref(a.Type()).Underlying().(*types.Array); ok && a.Heap {
 							if b, ok := arr.Elem().Underlying().(*types.Basic); ok && b.Kind() == types.Byte {
-								got = arr.Len()
+								sizes[arr.Len()] = true
 							}
 						}
 					case *ssa.MakeSlice:
-						if k, ok := c01ConstInt(a.Len); ok {
-							got = k
+						if sl, ok := a.Type().Underlying().(*types.Slice); ok {
+							if b, ok := sl.Elem().Underlying().(*types.Basic); ok && b.Kind() == types.Byte {
+								if k, ok := ng.constInt(CV{n.C, a.Len}); ok {
+									sizes[k] = true
+								} else {
+									sizes[-1] = true
+								}
+							}
 						}
 					}
 				})
 			}
 		}
 	}
-	if got < 0 {
-		r.Note("C01.R3: could not find the constant size of the pooled buffers (not armed)")
+	if !found || len(sizes) != 1 || sizes[-1] {
+		r.Undecide("C01.R3: the size of the pooled fill buffers is not decided (the function assigned to the pool's New field was not found, or allocates %d different / non-constant sizes)", len(sizes))
 		return
+	}
+	var got int64
+	for k := range sizes {
+		got = k
 	}
 	r.Check(got >= max, c01R3, "BufPool buffer size", "-", fmt.Sprintf("%d >= largest fill limit %d", got, max),
 		fmt.Sprintf("pooled buffers have %d bytes but the fill loop slices them up to %d: the first Read of a full-size segment panics (slice bounds out of range)", got, max))
+}
+
+// poolNewFuncs: the functions stored into the New field of the sync.Pool designated by pool (a package-level
+// variable, or a field / local of type sync.Pool), anywhere in the package.
+func (x *c01Ctx) poolNewFuncs(pool ssa.Value) []*ssa.Function {
+	var out []*ssa.Function
+	seen := map[*ssa.Function]bool{}
+	add := func(v ssa.Value) {
+		for i := 0; i < 6 && v != nil; i++ {
+			switch y := v.(type) {
+			case *ssa.Function:
+				if !seen[y] {
+					seen[y] = true
+					out = append(out, y)
+				}
+				return
+			case *ssa.MakeClosure:
+				v = y.Fn
+				if f, ok := y.Fn.(*ssa.Function); ok && len(y.Bindings) == 1 && len(f.Blocks) > 0 {
+					// bound method value: the method itself
+					if obj, ok := f.Object().(*types.Func); ok && obj != nil {
+						if m := x.p.SSA.FuncValue(obj); m != nil {
+							v = m
+						}
+					}
+				}
+			case *ssa.ChangeType:
+				v = y.X
+			case *ssa.UnOp:
+				// a function kept in a package-level variable assigned once
+				gl, ok := y.X.(*ssa.Global)
+				if !ok {
+					return
+				}
+				var st []ssa.Value
+				for _, fn := range x.fns {
+					allInstrs(fn, func(in ssa.Instruction) {
+						if s, ok := in.(*ssa.Store); ok && s.Addr == ssa.Value(gl) {
+							st = append(st, s.Val)
+						}
+					})
+				}
+				if len(st) != 1 {
+					return
+				}
+				v = st[0]
+			default:
+				return
+			}
+		}
+	}
+	samePool := func(base ssa.Value) bool {
+		if base == pool {
+			return true
+		}
+		// same field of the same struct type (pool kept in a struct)
+		if fa, ok := base.(*ssa.FieldAddr); ok {
+			if pfa, ok := pool.(*ssa.FieldAddr); ok {
+				return fieldIDOfAddr(fa) == fieldIDOfAddr(pfa)
+			}
+		}
+		return false
+	}
+	for _, fn := range x.fns {
+		allInstrs(fn, func(in ssa.Instruction) {
+			st, ok := in.(*ssa.Store)
+			if !ok {
+				return
+			}
+			if fa, ok := st.Addr.(*ssa.FieldAddr); ok {
+				id := fieldIDOfAddr(fa)
+				if id.Type == "sync.Pool" && id.Field == "New" && samePool(fa.X) {
+					add(st.Val)
+				}
+			}
+		})
+	}
+	if len(out) == 0 {
+		// the pool is built elsewhere and copied (constructor function): any New of a sync.Pool in the package
+		for _, fn := range x.fns {
+			allInstrs(fn, func(in ssa.Instruction) {
+				if st, ok := in.(*ssa.Store); ok {
+					if fa, ok := st.Addr.(*ssa.FieldAddr); ok {
+						if id := fieldIDOfAddr(fa); id.Type == "sync.Pool" && id.Field == "New" {
+							add(st.Val)
+						}
+					}
+				}
+			})
+		}
+	}
+	return out
 }
 
 func isZeroLen(g *cGraph, l CV) bool {
